@@ -263,6 +263,11 @@ def run_property(prop, tier, replay=None, only=None):
     t0 = time.time()
     units = spec["units"]
     results = []
+    if not only:
+        # replay files are run artefacts: start every full run from an empty directory
+        import shutil
+
+        shutil.rmtree(os.path.join(REPLAYS, prop), ignore_errors=True)
     for u in units:
         if only and hasattr(u, "accepts") and not u.accepts(only):
             continue
